@@ -47,14 +47,15 @@ theorem toks_le_raw (toks : List PTok) : toks.length ≤ (rawPat toks).length :=
     cases t <;> simp [PTok.raw] <;> omega
 
 theorem reRead_go_toks (delim : Nat) : ∀ (toks : List PTok) (tail acc : Bytes) (f : Nat),
-    delim ≠ 92 → (∀ t ∈ toks, t.Ok delim) → toks.length ≤ f →
+    delim ≠ 92 → delim < 128 → (∀ t ∈ toks, t.Ok delim) → toks.length ≤ f →
     reRead.go delim f (rawPat toks ++ tail) acc =
       reRead.go delim (f - toks.length) tail (acc ++ cookedPat delim toks) := by
   intro toks
   induction toks with
-  | nil => intro tail acc f _ _ _; simp [rawPat, cookedPat]
+  | nil => intro tail acc f _ _ _ _; simp [rawPat, cookedPat]
   | cons t r ih =>
-    intro tail acc f hd hok hf
+    intro tail acc f hd h7 hok hf
+    have e7 : decide (delim < 128) = true := by simpa using h7
     obtain ⟨f, rfl⟩ : ∃ g, f = g + 1 := ⟨f - 1, by simp at hf; omega⟩
     have hr : ∀ t ∈ r, t.Ok delim := fun x hx => hok x (List.mem_cons_of_mem _ hx)
     have hf' : r.length ≤ f := by simp at hf; omega
@@ -67,7 +68,7 @@ theorem reRead_go_toks (delim : Nat) : ∀ (toks : List PTok) (tail acc : Bytes)
       simp only [PTok.raw, PTok.cooked, List.cons_append, List.nil_append]
       rw [reRead.go]
       simp only [e1, e2, Bool.false_eq_true, if_false, Bool.false_and]
-      rw [ih tail _ f hd hr hf']
+      rw [ih tail _ f hd h7 hr hf']
       simp [List.append_assoc]
     | esc d =>
       simp only [PTok.raw, PTok.cooked, List.cons_append, List.nil_append]
@@ -75,12 +76,13 @@ theorem reRead_go_toks (delim : Nat) : ∀ (toks : List PTok) (tail acc : Bytes)
       · have e1 : ((92 : Nat) == delim) = false := by simpa using fun h => hd h.symm
         simp only [e1, Bool.false_eq_true, if_false, beq_self_eq_true, Bool.true_and, List.isEmpty_cons,
           Bool.not_false, if_true, List.headD_cons, List.drop_succ_cons, List.drop_zero]
-        rw [ih tail _ f hd hr hf']
+        rw [ih tail _ f hd h7 hr hf']
         by_cases hdd : d = delim
-        · simp [hdd, List.append_assoc]
+        · simp [hdd, e7, List.append_assoc]
         · simp [hdd, List.append_assoc]
 
 theorem delimOf_ne (back : Bool) : delimOf back ≠ 92 := by cases back <;> decide
+theorem delimOf_lt (back : Bool) : delimOf back < 128 := by cases back <;> decide
 
 theorem getLast_split (toks : List PTok) (x : PTok) (h : toks.getLast? = some x) : toks = toks.dropLast ++ [x] := by
   have hne : toks ≠ [] := by intro h0; rw [h0] at h; cases h
@@ -100,18 +102,18 @@ theorem reRead_search (back : Bool) (toks : List PTok) (closed : Bool) (t : Byte
       simp only [Base.render, if_true, List.cons_append, List.append_assoc, List.nil_append]
       unfold reRead
       simp only []
-      rw [reRead_go_toks _ toks _ [] _ (delimOf_ne back) hok (by simp; omega)]
+      rw [reRead_go_toks _ toks _ [] _ (delimOf_ne back) (delimOf_lt back) hok (by simp; omega)]
       obtain ⟨k, hk⟩ : ∃ k, (rawPat toks ++ delimOf back :: t).length + 1 - toks.length = k + 1 :=
         ⟨(rawPat toks ++ delimOf back :: t).length - toks.length, by simp; omega⟩
       rw [hk, reRead.go]
-      simp
+      simp [delimOf_lt back]
     | false =>
       have ht := hc rfl
       subst ht
       simp only [Base.render, Bool.false_eq_true, if_false, List.append_nil]
       unfold reRead
       simp only []
-      rw [← List.append_nil (rawPat toks), reRead_go_toks _ toks [] [] _ (delimOf_ne back) hok (by simp; omega)]
+      rw [← List.append_nil (rawPat toks), reRead_go_toks _ toks [] [] _ (delimOf_ne back) (delimOf_lt back) hok (by simp; omega)]
       cases (rawPat toks ++ []).length + 1 - toks.length with
       | zero => rw [reRead.go]; simp
       | succ k => rw [reRead.go]; simp
@@ -130,7 +132,7 @@ theorem reRead_search (back : Bool) (toks : List PTok) (closed : Bool) (t : Byte
     simp only [Base.render, Bool.false_eq_true, if_false, List.append_nil]
     unfold reRead
     simp only []
-    rw [hraw, hcook, reRead_go_toks _ toks.dropLast [92] [] _ (delimOf_ne back) hinit
+    rw [hraw, hcook, reRead_go_toks _ toks.dropLast [92] [] _ (delimOf_ne back) (delimOf_lt back) hinit
       (by simp only [List.length_append, List.length_cons, List.length_nil]; omega)]
     obtain ⟨k, hk⟩ : ∃ k, (rawPat toks.dropLast ++ [92]).length + 1 - toks.dropLast.length = k + 2 :=
       ⟨(rawPat toks.dropLast ++ [92]).length - toks.dropLast.length - 1,
